@@ -41,7 +41,7 @@ ASSUMPTIONS = [
     "models carry the grouping pattern descriptor on their own RDMs; ModelFixed overwrites 'index' on "
     "its RDM, so leakage cases never group conditions by an overridden 'index'",
     "fit_regress_nn can cycle forever in its active-set loop on some inputs (absolute stopping "
-    "threshold); such cases hit a 15 s watchdog and are counted inconclusive, singular regressions "
+    "threshold); such cases hit a 3 s watchdog and are counted inconclusive, singular regressions "
     "are counted as rejected",
     "noise ceilings are not part of this property (calc_noise_ceil=False where the API allows it)",
 ]
